@@ -208,6 +208,72 @@ def tryshape_programs(two_deep):
         yield "tryshape-native|" + name, src
 
 
+# statements whose body does not run (or runs zero times): the paths "around" a construct, each with its own clean-up code
+DEGENERATE = {
+    "switch-no-match-no-default": "switch (z) { case 0: __out(1); case 5: __out(2) }",
+    "switch-empty": "switch (s) { }",
+    "switch-only-default": "switch (z) { default: }",
+    "switch-match-last-no-break": "switch (s) { case 0: __out(1); case 1: __out(2) }",
+    "switch-discriminant-call": "switch (g(1, 2)) { case 0: __out(1) }",
+    "switch-case-expression-call": "switch (z) { case g(0, 1): __out(1); case g(1, 1): __out(2) }",
+    "switch-in-expression-statement": "[1].map(function (v) { switch (v) { case 2: return 1 } })",
+    "for-zero-iterations": "for (var q = 0; q < 0; q++) { __out(1) }",
+    "for-in-empty": "for (var k in {}) { __out(k) }",
+    "for-in-null": "for (var k in null) { __out(k) }",
+    "for-of-empty": "for (var v of []) { __out(v) }",
+    "for-of-break-first": "for (var v of [1, 2, 3]) { break }",
+    "for-in-break-first": "for (var k in {a: 1, b: 2}) { break }",
+    "for-in-continue-all": "for (var k in {a: 1, b: 2}) { continue }",
+    "while-false": "while (false) { __out(1) }",
+    "do-while-once-break": "do { break } while (true);",
+    "if-false-no-else": "if (!c) { __out(1) }",
+    "conditional-expression-untaken": "c ? 0 : g(1, 2);",
+    "and-short-circuit": "(!c) && g(1, 2);",
+    "or-short-circuit": "c || g(1, 2);",
+    "try-empty-finally": "try { } finally { }",
+    "try-catch-not-entered": "try { } catch (e) { __out(e) }",
+    "labelled-block-break": "L: { break L; }",
+    "labelled-empty-loop": "L: for (;;) { break L }",
+    "nested-label-continue": "A: for (var q = 0; q < 2; q++) { B: for (;;) { continue A } }",
+    "comma-and-void": "void (g(1, 2), 0);",
+    "delete-and-typeof": "delete a[9]; typeof nothere;",
+    "empty-statements": ";;;",
+    "var-without-init": "var w1, w2;",
+    "function-declaration-only": "function unused() { return 1 }",
+    "array-and-object-literals-dropped": "[g(1, 2), {k: g(3, 4)}];",
+    "call-with-spread-like-many-args": "g(1, 2, 3, 4, 5, 6, 7, 8);",
+    "getter-read-dropped": "({get p() { return g(1, 2) }}).p;",
+    "throw-caught-in-switch": "switch (s) { case 1: try { throw 1 } catch (e) { break } }",
+    "return-from-switch-in-function": "(function () { switch (s) { case 1: return 5 } })();",
+    "return-from-for-in-in-function": "(function () { for (var k in {a: 1}) { return k } })();",
+    "return-from-for-of-in-function": "(function () { for (var v of [1, 2]) { return v } })();",
+    "break-out-of-switch-in-for-in": "for (var k in {a: 1, b: 2}) { switch (k) { case 'a': continue; default: break } }",
+}
+
+
+def degenerate_programs():
+    pre = P.PRELUDE
+    for name, stmt in DEGENERATE.items():
+        yield ("degenerate-inline|%s|none" % name,
+               pre + "var I = 0; while (I < NN) { I++; " + stmt + " __mark(); } I")
+        yield ("degenerate-func|%s|none" % name,
+               pre + "function fn() { " + stmt + " return 6 } var I = 0; while (I < NN) { I++; r = 1 + fn(); __mark(); } I")
+        yield ("degenerate-native|%s|none" % name,
+               pre + "function fn() { " + stmt + " return 6 } var I = 0; while (I < NN) { I++; [1].forEach(function () { "
+               "r = [0, fn()] }); __mark(); } I")
+        yield ("degenerate-operand|%s|none" % name,
+               pre + "function fn() { " + stmt + " return 6 } var I = 0; while (I < NN) { I++; r = g(1, [fn(), fn()].length); "
+               "__mark(); } I")
+
+
+def _degenerate_cases():
+    out = []
+    for cid, src in degenerate_programs():
+        out.append((cid, {"src": src}))
+        out.append((cid.replace("|none", "|long-run"), {"src": src, "n": 3000, "ml": 65536}))
+    return out
+
+
 def _tryshape_cases(two_deep):
     return [(cid, {"src": src}) for cid, src in tryshape_programs(two_deep)]
 
@@ -296,6 +362,12 @@ def spaces(tier, seed, all_strata=False):
             "all 205 try/catch/finally shapes (5 try exits x 7 catch exits x 6 finally exits, incl. break/continue/return/throw "
             "leaving a catch or finally block while an exception is pending) inline in the driver loop, inside a function used "
             "as an operand, and below a native frame", "all shapes", nontrivial=lambda cid, p, exp: "normal.absent.absent" not in cid),
+        _sp("c02_degenerate", "run_residue", _degenerate_cases,
+            "%d statements whose body is skipped or runs zero times (switch without a matching case or default, empty loops, "
+            "untaken branches, short circuits, immediate break / continue / return out of for-in, for-of and switch, dropped "
+            "expression values) x 4 placements (inline, in a function used as an operand, below a native frame, twice in one "
+            "array literal), 30 iterations with the depth marks and 3 000 iterations under memory_limit = 64 kB" % len(DEGENERATE),
+            "%d x 4 x 2" % len(DEGENERATE), nontrivial=lambda cid, p, exp: True),
         _sp("c02_residue_d2", "run_residue", lambda: _residue_cases(2, C2),
             "every two-level nesting of 14 constructs x 9 exit kinds x 3 positions, same three placements", "depth 2",
             nontrivial=_nontrivial),
